@@ -324,6 +324,87 @@ def c12(acc):
     return acc.finish()
 
 
+def mc_attrs(acc, N, mode, maxattrs, emit, name):
+    cfg = f"""SPECIFICATION Spec
+CONSTANTS
+  N = {N}
+  Mode = "{mode}"
+  Emit = {"TRUE" if emit else "FALSE"}
+  MaxAttrs = {maxattrs}
+INVARIANTS Inv_Ends Inv_Spans Inv_HtmlOnlyAdds Inv_Dups Inv_Lists Inv_Emit
+CHECK_DEADLOCK FALSE
+"""
+    r = tlc("MC_Attrs", cfg, name=name, timeout=2500)
+    acc.add_tlc(r, f"A:MC_Attrs mode={mode} N={N} MaxAttrs={maxattrs}")
+    path = None
+    if emit:
+        path = os.path.join(work_dir("beh-" + name), "behaviours.ndjson")
+        write_ndjson(path, r.tagged.get("REPLAY", []))
+    return r, path
+
+
+def c11(acc):
+    """Attribute iteration yields exactly the tag's attributes or the documented error."""
+    q = acc.tier == QUICK
+    acc.rule = ("(A) Attrs.tla: (i) every tag content of <= N bytes over {SP,TAB,=,\",',a,b,/} x XML/HTML x checks: ends, stays ended, spans exact, HTML only adds, "
+                "duplicate discipline; (ii) attribute lists constructed from parts with one injected fault of each kind at every position: items must equal the "
+                "constructed expectation (documented error, position, recovery). (B) every case iterated with the real Attributes (to None and three calls beyond); "
+                "(C) generated lists of 0-8 attributes with injected faults validated by TLC. non-trivial = cases with >= 2 items")
+    acc.trusted = ["TLC", "harness/src/attrs.rs projection", "bounded scope N / MaxAttrs; generated traces are samples"]
+    _, p = mc_attrs(acc, 5 if q else 7, "strings", 2, True, "MC_Attrs-strings")
+    summ, viol, _ = harness(["attrs-replay", "--file", p, "--prop", acc.pid, "--out-dir", REPLAY_DIR])
+    acc.add_harness(summ, viol, "B:replay strings")
+    _, p2 = mc_attrs(acc, 1, "lists", 2 if q else 3, True, "MC_Attrs-lists")
+    summ, viol, _ = harness(["attrs-replay", "--file", p2, "--prop", acc.pid, "--out-dir", REPLAY_DIR])
+    acc.add_harness(summ, viol, "B:replay lists")
+    wd = work_dir("trace-C11")
+    tp = os.path.join(wd, "trace.ndjson")
+    args = ["attrs-record", "--out", tp, "--n", 3000 if q else 40000, "--seed", SEED]
+    summ, viol, _ = harness(args)
+    ok = validate_trace(acc, "TraceAttrs", tp, "C:traces generated attribute lists", "", rerun_args=[str(a) for a in args])
+    if summ:
+        acc.traces += summ["traces"] if ok else 0
+        acc.evaluations += summ["events"]
+        acc.nontrivial += summ["nontrivial"]
+        acc.samples += summ["samples"][:2]
+    return acc.finish()
+
+
+def c10(acc):
+    """Escaping is safe and unescaping is its exact inverse."""
+    q = acc.tier == QUICK
+    acc.rule = ("(A) Escape.tla: every string of <= N symbols over {<,>,&,',\",#,x,;,1,0,a,l,t,SP,e-acute}: unescape(escape_level(s)) = s for 4 levels, escaped form "
+                "safe, no '&' => unchanged, success => every '&' closed, stability. (B) the same strings through the real escape/partial_escape/minimal_escape/"
+                "unescape (value/error, borrowed flag, real round trip). (C) random Unicode strings and the sweep of all code points 0..0x110400 in decimal, lower/"
+                "upper hex and zero-padded spellings (run-length encoded; TLC evaluates ValidScalar on every code point) plus boundary spellings with output bytes. "
+                "non-trivial = strings containing '&' (and every swept code point)")
+    acc.trusted = ["TLC", "harness/src/esc.rs", "feature escape-html off (five predefined entities)"]
+    cfg = f"""SPECIFICATION Spec
+CONSTANTS
+  N = {4 if q else 6}
+  Emit = TRUE
+INVARIANTS Inv_RoundTrip Inv_Safe Inv_NoAmp Inv_Closed Inv_Stable Inv_Emit
+CHECK_DEADLOCK FALSE
+"""
+    r = tlc("MC_Escape", cfg, name="MC_Escape", timeout=3000)
+    acc.add_tlc(r, f"A:MC_Escape N={4 if q else 6}")
+    p = os.path.join(work_dir("beh-MC_Escape"), "behaviours.ndjson")
+    write_ndjson(p, r.tagged.get("REPLAY", []))
+    summ, viol, _ = harness(["escape-replay", "--file", p, "--prop", acc.pid, "--out-dir", REPLAY_DIR])
+    acc.add_harness(summ, viol, "B:replay strings")
+    wd = work_dir("trace-C10")
+    tp = os.path.join(wd, "trace.ndjson")
+    args = ["escape-record", "--out", tp, "--n", 3000 if q else 30000, "--seed", SEED, "--sweep", 1]
+    summ, viol, _ = harness(args)
+    ok = validate_trace(acc, "TraceEscape", tp, "C:traces random strings + all code points in both radices", "", rerun_args=[str(a) for a in args])
+    if summ:
+        acc.traces += summ["traces"] if ok else 0
+        acc.evaluations += summ["comparisons"]
+        acc.nontrivial += summ["nontrivial"]
+        acc.samples += summ["samples"][:2]
+    return acc.finish(extra={"code_points_swept": summ.get("code_points_swept", 0) if summ else 0})
+
+
 def run_check(pid, tier):
     fn = REGISTRY.get(pid)
     if fn is None:
@@ -344,6 +425,12 @@ def replay(pid, path):
         b = build_harness(False)
         p = subprocess.run([b, "reader-rerun", "--file", path], cwd=ROOT)
         return p.returncode
+    if kind == "escape-replay":
+        p = subprocess.run([build_harness(False), "escape-rerun", "--file", path], cwd=ROOT)
+        return p.returncode
+    if kind == "attrs-replay":
+        p = subprocess.run([build_harness(False), "attrs-rerun", "--file", path], cwd=ROOT)
+        return p.returncode
     if kind == "rejected-trace":
         log(json.dumps(v["run_records"][: v["first_unmatched_record"] + 2], indent=0)[:4000])
         log("re-record with: qxv " + " ".join(v.get("rerecord_args") or []))
@@ -352,4 +439,4 @@ def replay(pid, path):
     return 1
 
 
-REGISTRY = {"C01": c01, "C02": c02, "C03": c03, "C04": c04, "C08": c08, "C12": c12, "C16": c16, "C18": c18}
+REGISTRY = {"C01": c01, "C02": c02, "C03": c03, "C04": c04, "C08": c08, "C10": c10, "C11": c11, "C12": c12, "C16": c16, "C18": c18}
